@@ -14,11 +14,11 @@ COMMON_NOTE = ("Trusted base: the pyvc VC generator (its interpreter is cross-ch
                "the Python semantics listed in DESIGN.md 2.3 (ints exact; floats as exact reals validated on the 0.1 grid; UTF-8 bijection), ")
 
 CLAIMS = {
-    "C01": ("proof", "Step contracts of the send path proved on the real socket.py for all states satisfying the connection invariant, with interference at every await: enqueue = unexpired old entries ++ [new entry] (queue lengths enumerated, labelled bounded), send_with_header stores these very header/message objects, send builds the header from the encoder's size, each drain iteration writes exactly the popped head entry's frame, _write hands header, payload and CRC to the writer back-to-back in one atomic segment or writes nothing. The induction from these steps to 'exactly once, in order' (FIFO lemma) is on paper.",
-            "asyncio StreamWriter/loop contracts (write keeps call order; time advances only at awaits); codecs behave as their contracts allow (stub registry); FIFO induction over the step contracts is not machine-checked; queue-length enumeration 0..11 is a bounded stand-in."),
+    "C01": ("proof", "Step contracts of the send path proved on the real socket.py for all states satisfying the connection invariant, with interference at every await: enqueue = unexpired old entries ++ [new entry] (for every queue length: loop contract over an SMT sequence, discharged by cvc5; small lengths additionally enumerated with native replays, labelled bounded), send_with_header stores these very header/message objects, send builds the header from the encoder's size, each drain iteration writes exactly the popped head entry's frame, _write hands header, payload and CRC to the writer back-to-back in one atomic segment or writes nothing. The induction from these steps to 'exactly once, in order' (FIFO lemma) is on paper.",
+            "asyncio StreamWriter/loop contracts (write keeps call order; time advances only at awaits); codecs behave as their contracts allow (stub registry); FIFO induction over the step contracts is not machine-checked; the enumerated queue lengths 0..11 are a bounded companion of the any-length proof (they give natively replayable counterexamples)."),
     "C02": ("proof", "Retry discipline as postconditions of the real drain loop body (re-queue at head with one retry less and the same header/message/expiry, drop at zero, expiry test and write at the same loop time, no write without a connection), the policy constants, and for every public command of both API generations the policy handed to socket.send (toggle => RETRY_NON_IDEMPOTENT, absolute settings => RETRY_IDEMPOTENT, heartbeat/error-info/refresh => RETRY_CONNECTED), over all enum arguments and ability records.",
             "loop clock semantics (time does not advance inside an atomic segment); socket.send contract at the API boundary; 'at most 1+max_retries transmissions' follows from the handler contract by the on-paper FIFO lemma."),
-    "C03": ("proof", "For every message class of both generations: announced size == bytes produced and decode(encode(m)) == m with nothing left over, for all field values of the protocol domain (records fully symbolic, repeat counts 0..16 enumerated = the property's own range), header codecs, 0x1F / 0xC0 wrappers parametric in their sub-codec contracts, registries, CRC by induction over the buffer. Strings and a few variable-length records use enumerated lengths and are labelled bounded.",
+    "C03": ("proof", "For every message class of both generations: announced size == bytes produced and decode(encode(m)) == m with nothing left over, for all field values of the protocol domain (records fully symbolic, repeat counts 0..16 enumerated = the property's own range), header codecs, 0x1F / 0xC0 wrappers parametric in their sub-codec contracts, registries, CRC by induction over the buffer. Error texts and a single zone name are proved for every length (symbolic-length UTF-8 buffer; > 255 bytes is refused, never truncated); version lists, multi-name messages and a few variable-length records use enumerated lengths and are labelled bounded.",
             "domain predicates valid(m) written in the contract files; str modelled by its UTF-8 bytes; bounded string lengths where labelled; composition of codec contracts with socket._write/_read_one_message contracts is by matching pre/postconditions."),
     "C04": ("proof", "Every public control call of both generations, for all admissible arguments (enum products, real-valued temperatures, all ability bitmaps): exactly one socket.send, and the payload produced by the real registry's encoder for that message, read with the vendor tables transcribed in the contract files, addresses the intended AC/zone, changes exactly the requested attribute and keeps every other; codec-level encoders additionally checked field by field against the vendor layout.",
             "vendor tables transcribed by hand from docs/protocol PDFs (text in spec/vendor); quick-timer / timer-control messages are undocumented: repo-derived oracle; header address/CRC clauses rest on the header-factory and _write contracts."),
@@ -44,12 +44,12 @@ CLAIMS = {
             "asyncio.timeout / Event models; convergence of the model to the console's answers is C10 applied to those answers."),
     "C15": ("proof", "shutdown() of both AirTouch objects: state CLOSED, not initialised, heartbeat stopped, AT4 poll task cancelled and awaited, socket closed, model dropped, nothing sent (all states). Inertness after close as site obligations: _connect is a no-op on a closed socket, a connection completing after close() is closed and not adopted, no retry is scheduled once closed, send on a closed socket raises NotOpenError without holding anything, close() leaves is_open False and schedules nothing; heartbeat stop cancels and awaits both tasks.",
             "quiescence 'no task remains' is proved as inertness of the socket coroutines after close, not as an empty schedule; re-init = the init contract holds from the CLOSED post-state of shutdown."),
-    "C16": ("proof", "_enqueue_message: purge precedes the capacity test, an eleventh unexpired message raises QueueOverflowError leaving exactly the unexpired old ones in order, otherwise the new entry is appended last; not-open sends raise NotOpenError and hold nothing. Queue lengths are enumerated (0..6 all expiry patterns, 9..11 near capacity; thorough 7..11 all patterns): labelled bounded.",
-            "bounded enumeration of the queue length (the loop runs over a concrete-length deque)."),
-    "C17": ("proof", "Fallback decoders for unregistered ids return the payload unchanged, AT5 status decoders honour strides larger than the layout, every decoder's exception set is within Exception, _read_one_message lets only transport/decoder exceptions out and _read turns each into a reset without raising.",
+    "C16": ("proof", "_enqueue_message: purge precedes the capacity test, an eleventh unexpired message raises QueueOverflowError leaving exactly the unexpired old ones in order, otherwise the new entry is appended last; not-open sends raise NotOpenError and hold nothing. Proved for every queue length by a loop contract over an SMT sequence with a recursive purge function (socket._enqueue_message.any-length, cvc5); additionally enumerated for lengths 0..6 and 9..11 (thorough 7..11) with every expiry pattern, labelled bounded, for natively replayable counterexamples.",
+            "the any-length proof abstracts the deque as a mathematical sequence (del q[i] = sequence deletion); the purge axiom is quantified (cvc5 decides it; z3 does not)."),
+    "C17": ("proof", "The real MessageRegistry serves exactly the unregistered type bytes (all 256 examined symbolically, both generations) by the fallback decoder and refuses to encode them; the top-level and the 0x1F / 0xC0 fallback decoders return the payload unchanged with the id, AT5 status decoders honour strides larger than the layout, every decoder's exception set is within Exception, _read_one_message lets only transport/decoder exceptions out and _read turns each into a reset without raising.",
             "as C05 / C07."),
-    "C18": ("proof", "search(): at most three requests, one sendto of the fixed request string to (broadcast|given host, 49004|49005) and one 0.5 s sleep per interval, stops after the first interval with an answer, closes the socket once, always returns - for all arrival patterns over the three intervals. Both datagram decoders and datagram_received over *all* byte strings through a complete structural case split on the comma structure (blocks and rest of symbolic length): a vendor-format datagram yields exactly its host, serial, id (and name with commas preserved), every other datagram (request echo, wrong part count, wrong id position) adds nothing; invalid text raises only UnicodeDecodeError. factory.discover: right class, model, TCP port 9004/9005, registry and identity per response.",
-            "asyncio datagram endpoint and the event loop's handling of an exception escaping a protocol callback are assumed (logged, transport stays open); set semantics collapse duplicates (frozen dataclass equality); udp.py is not imported by the package and not modelled."),
+    "C18": ("proof", "search(): at most three requests, one sendto of the fixed request string to (broadcast|given host, 49004|49005) and one 0.5 s sleep per interval, stops after the first interval with an answer, closes the socket once, always returns - for all arrival patterns over the three intervals. Both datagram decoders and datagram_received over *all* byte strings through a complete structural case split on the comma structure (blocks and rest of symbolic length): a vendor-format datagram yields exactly its host, serial, id (and name with commas preserved), every other datagram (request echo, wrong part count, wrong id position) adds nothing; invalid text raises only UnicodeDecodeError. _open_socket: one IPv4 UDP broadcast socket bound to 0.0.0.0:49004|49005, the decoding protocol built with the generation's decoder and response type, every response reaches the caller's set and identical ones collapse (frozen dataclass); factory._search: one discoverer per generation, each searched once, results united in any completion order; factory.discover: right class, model, TCP port 9004/9005, registry and identity per response.",
+            "socket.socket / bind / create_datagram_endpoint are assumed not to fail (no OS error) and the event loop's handling of an exception escaping a protocol callback is assumed (logged, transport stays open); udp.py is not imported by the package (dead code) and not modelled."),
     "C19": ("proof", "The same contracts are discharged for both implementations: getters agree on the common attributes, setters accept/reject the same requests and the transmitted payloads have the same vendor meaning on each wire format (obligations are stated once and instantiated for AT4 and AT5); documented differences appear as generation parameters.",
             "agreement is by instantiating identical obligations, not by a product program; common domain = the generation parameter table in contracts/api_*.py."),
 }
